@@ -755,6 +755,42 @@ def check_prog(case, M):
         shapes |= prog_shapes(dp)
         if len(failures) > 6:
             break
+    # ---- the printed form follows the object: print, change a constant in place, print again
+    from synth.syntax.program import Constant as _Constant, Function as _Function
+    n_hist = 0
+    for p in progs:
+        if n_hist >= 8 or len(failures) > 6:
+            break
+        if not isinstance(p, _Function):
+            continue
+        cs = [c for c in p.depth_first_iter() if isinstance(c, _Constant) and c.has_value()]
+        if not cs:
+            continue
+        c = cs[0]
+        alts = [(k, v) for k, (t, v) in consts.items() if t == c.type and v != c.value]
+        if not alts:
+            continue
+        n_hist += 1
+        old_value = c.value
+        before = str(p)
+        c.assign(alts[0][1])
+        try:
+            after = str(p)
+            want = own_print(dump_prog(p))
+            if after != want:
+                failures.append({"kind": "oracle", "what": "printed form does not follow the program after a constant was assigned a new value",
+                                 "detail": f"printed {before!r}, then assign({alts[0][1]!r}): str(p)={after!r} expected {want!r}"})
+                failing.append(before)
+            else:
+                st, q = guarded(lambda: dsl.parse_program(after, tr, consts), 20)
+                if st != "ok" or not (q == p):
+                    failures.append({"kind": "oracle", "what": "parse_program(str(p)) is not p after a constant was assigned a new value",
+                                     "detail": f"text={after!r} got {(st, str(q))}"})
+                    failing.append(before)
+        finally:
+            c.assign(old_value)
+    if n_hist:
+        tags.append("prog.print-assign-print-history")
     # ---- malformed program texts
     rng = _random.Random(case["sub"])
     n_mal = 0
